@@ -18,7 +18,8 @@
 //!   Request for which the presentation verifies"); for those the oracle is
 //!   "verification fails OR the returned request differs from the original".
 //! * `Web3IdAttribute::Timestamp` values are not generated (same embedding as
-//!   Numeric). web3id v1 (web3id/v1/*) is NOT covered.
+//!   Numeric). web3id v1, identity_attributes_credentials and the anchored
+//!   verification flow are monitored in c18v1.rs (cases idx%8 in {6,7}).
 //! * `StatementWithContext::prove` draws randomness from thread_rng() inside
 //!   the library; web3id uses `prove_with_rng` with the case PRNG.
 //! * Soundness beyond the library prover (DESIGN.md section 7).
